@@ -80,9 +80,14 @@ void PolicyBase::open( bool from_reopen)
 {
 
    const auto  filename = filename::Builder::filename( mFilenameDefinition);
+   // an existing log file is continued, only the file that is opened after a
+   // rollover is started anew
+   const auto  open_mode = from_reopen
+      ? std::ios_base::out | std::ios_base::trunc
+      : std::ios_base::out | std::ios_base::app | std::ios_base::ate;
 
 
-   mFile.open( filename, std::ios_base::out | std::ios_base::ate);
+   mFile.open( filename, open_mode);
 
    if (!mFile || !mFile.is_open())
    {
@@ -95,7 +100,7 @@ void PolicyBase::open( bool from_reopen)
          common::FileOperations::mkdir( path);
 
          // try again
-         mFile.open( filename, std::ios_base::out | std::ios_base::ate);
+         mFile.open( filename, open_mode);
       } // end if
    } // end if
 
